@@ -1114,7 +1114,7 @@ func (x *Exec) evalMethod(env *SpecEnv, e EMethod) Val {
 							return h(x, nil, env.cur, nil, nil, args, rt)
 						}
 					}
-					if fn := x.findPkgFunc(imp, e.Name); fn != nil && fn.Blocks != nil {
+					if fn := x.findPkgFunc(imp, e.Name); fn != nil && (fn.Blocks != nil || x.isPureContract(fn)) {
 						var args []Val
 						for i, a := range e.Args {
 							av := x.evalVal(env, a)
